@@ -75,6 +75,19 @@ theorem corrfunc_ctor_spec (dr rd rr : Bool) :
   refine ⟨?_, by decide, by decide⟩
   cases dr <;> cases rd <;> cases rr <;> decide
 
+/-- derived correlation functions keep every member in its own slot (so the estimator that applies to a measurement applies to its
+bins, its patches and its multiples), and a sum needs operands with the same members: the model of a correlation function as four
+optional slots, the sum defined when the presence patterns agree -/
+def cfAddDefined (a b : Bool × Bool × Bool) : Bool := a == b
+
+theorem cf_add_symmetric (a b : Bool × Bool × Bool) : cfAddDefined a b = cfAddDefined b a := by
+  unfold cfAddDefined
+  rw [Bool.eq_iff_iff]
+  simp only [beq_iff_eq]
+  exact eq_comm
+
+theorem corrfunc_algebra_flags : corrfuncDerivesByName = true ∧ corrfuncAddRequiresSameMembers = true := by decide
+
 /-! ### iteration: the `Indexer` protocol (state = position; the callback raises IndexError from `n` on) -/
 
 structure Ix (α : Type) where
